@@ -8,6 +8,10 @@ TB = ("Trusted base: Coq 8.16.1 kernel + vm_compute (no native_compute); no axio
       "crypto/x509/asn1/pem/json, protobuf, go-configfs-tsm, go-eventlog, the Go runtime and the OS. ")
 TECH = "Coq theorems over an executable Gallina model (regenerated constants/tables) + extraction-based differential correspondence against /repo with a ground-truth oracle"
 props = {
+ "C08": ("Theorems C08_iff (for every well-formed message and every options value, validation succeeds iff the declarative conjunction of configured expectations holds: exact fields, RTMRs, allowed MR_TD, SVN minima component-wise, XFAM/TD_ATTRIBUTES masks bit by bit) and C08_total (no options value or message makes validation crash); the model is run against validate.TdxQuote / RawTdxQuote on every per-field variant, every single mask bit and list shapes, with an independent Go reading of the property as ground truth.",
+         "6 (C08), Appendix A.3", "logger side effects and error texts are not modelled; an empty allowed-MR_TD entry acts as a wildcard in the code and in the model (outside the property's 'set of non-empty values')."),
+ "C14": ("Theorems C14_converts_iff / C14_fails / C14_total (conversion succeeds exactly when both SVN minima fit 16 bits and every present byte-string expectation incl. minimum_tee_tcb_svn, RTMR and allowed-MR_TD entries has the right length) and C14_meaning (a converted policy gives the verdict the message literally describes and cannot crash validation); run against validate.PolicyToOptions followed by validate.TdxQuote.",
+         "6 (C14), Appendix A.3", "protobuf decoding of the policy message is not modelled (the model starts from the getters' values)."),
  "C09": ("Theorems C09_parse_ser (serialise(parse raw) = raw for every accepted byte string), C09_signed_prefix (re-serialised header/body = bytes 0..631), C09_ser_parse (every well-formed message survives serialise-then-parse), C09_accepts_exactly (parser accepts exactly the serialisations of well-formed messages), C09_fields (every field is the literal-offset little-endian slice Intel's layout prescribes) and C09_tables (the field/offset/check tables the translator recovers from abi.go equal the specification's); the model parser/serialiser is run against abi.QuoteToProto / QuoteToAbiBytes / CheckQuoteV4 / the exported sub-serialisers on thousands of byte strings and messages per run, with an independent layout parser as ground truth.",
          "6 (C09), Appendix A.1", "Input lengths are assumed < 2^32 (the uint32 conversions of len in abi.go are not modelled); nil and empty byte fields are identified (as proto.Equal does)."),
  "C15": ("Theorems C15_ok_iff / C15_total / C15_no_crash / C15_relay / C15_device_bytes / C15_provider / C15_fallback over every scripted device and provider behaviour; the model is run against client.GetRawQuote on the full grid of device outcomes on every check.",
